@@ -1,10 +1,12 @@
 //! nbverif: pure executor. Reads cases on stdin, writes one observation line per case.
 mod dim;
+mod echo;
 mod html;
 mod list;
 mod prefix;
 mod qty;
 mod session;
+mod syntax;
 mod util;
 mod vm;
 
@@ -20,11 +22,13 @@ fn main() {
         "dim" => dim::main(),
         "dim-env" => dim::main_env(),
         "dim-run" => dim::main_run(),
+        "echo" => echo::main(),
         "html" => html::main(),
         "list" => list::main(),
         "prefix" => prefix::main(),
         "qty" => qty::main(),
         "session" => session::main(),
+        "syntax" => syntax::main(),
         "vm" => vm::main(),
         other => {
             eprintln!("unknown subcommand {other}");
